@@ -206,7 +206,9 @@ def model_only(chk, prop, runs=12, nsteps=300, gen_kw=None, seed_mul=15485863):
     about a part of the server (login, pool, forwarding, extraction) and rest on the session model being the code.  Reports like run():
     harness abort; `correspondence broken` (no-failing-input-found) when nothing else was violated."""
     exe = vlib.build_srv()
-    jobs = [(exe, chk.seed * seed_mul + k, nsteps, (), gen_kw or {}) for k in range(runs)]
+    # C11's server side: run 0 opens with the scripted many-users / upper-casing-relay session (user ids a..f in data queries)
+    jobs = [(exe, chk.seed * seed_mul + k, nsteps, (), dict(gen_kw or {}, **({"scenario": "upper_users", "netbits": 24} if prop == "C11" and k == 0 else {})))
+            for k in range(runs)]
     with ProcessPoolExecutor(min(16, os.cpu_count() or 4)) as ex:
         results = list(ex.map(_one_run, jobs))
     nops, ndiff, first = 0, 0, None
